@@ -320,6 +320,11 @@ def run_check(prop, modname, tier, seed):
     replays = 0
     seen_sigs = set()
     max_replays = int(os.environ.get('VERIF_MAX_REPLAYS', '24'))
+    # candidates whose signature is not a listed known finding come first: the replay cap must never be used up by the
+    # known ones
+    all_viol.sort(key=lambda t: 0 if match_known(known, prop, t[2].get('sig') or list(t[1])) is None else 1)
+    n_unknown = sum(1 for t in all_viol if match_known(known, prop, t[2].get('sig') or list(t[1])) is None)
+    max_replays = max(max_replays, min(n_unknown, 60) + 12)
     for f, k, v in all_viol:
         if replays >= max_replays:
             break
